@@ -261,6 +261,55 @@ impl CompressedCircuit {
             .ok_or(Error::InvalidCompressedCircuit)
     }
 
+    /// Inflates a raw deflate stream into at most `max_size` bytes and
+    /// requires the stream to span the whole input.
+    ///
+    /// `miniz_oxide::inflate::decompress_to_vec_with_limit` stops at the end
+    /// of the deflate stream and ignores whatever follows it, so a description
+    /// with trailing bytes would be accepted. This is the same loop with the
+    /// consumed input accounted for.
+    fn inflate_exact(
+        mut input: &[u8],
+        max_size: usize,
+    ) -> Result<Vec<u8>, Error> {
+        use miniz_oxide::inflate::TINFLStatus;
+        use miniz_oxide::inflate::core::{
+            DecompressorOxide, decompress, inflate_flags,
+        };
+
+        let flags = inflate_flags::TINFL_FLAG_USING_NON_WRAPPING_OUTPUT_BUF;
+        let mut output = vec![0u8; input.len().saturating_mul(2).min(max_size)];
+        let mut decompressor =
+            alloc::boxed::Box::<DecompressorOxide>::default();
+        let mut output_position = 0;
+
+        loop {
+            let (status, consumed, written) = decompress(
+                &mut decompressor,
+                input,
+                &mut output,
+                output_position,
+                flags,
+            );
+            output_position += written;
+            input = input
+                .get(consumed..)
+                .ok_or(Error::InvalidCompressedCircuit)?;
+
+            match status {
+                TINFLStatus::Done if input.is_empty() => {
+                    output.truncate(output_position);
+                    return Ok(output);
+                }
+                TINFLStatus::HasMoreOutput if output.len() < max_size => {
+                    let len = output.len().saturating_mul(2).min(max_size);
+                    output.resize(len, 0);
+                }
+                _ => return Err(Error::InvalidCompressedCircuit),
+            }
+        }
+    }
+
     fn unpack_bounded(
         packed: &[u8],
         max_constraints: usize,
@@ -305,10 +354,7 @@ impl CompressedCircuit {
         max_constraints: usize,
     ) -> Result<Composer, Error> {
         let max_size = Self::packed_size_limit(max_constraints)?;
-        let compressed = miniz_oxide::inflate::decompress_to_vec_with_limit(
-            compressed, max_size,
-        )
-        .map_err(|_| Error::InvalidCompressedCircuit)?;
+        let compressed = Self::inflate_exact(compressed, max_size)?;
         let circuit = Self::unpack_bounded(&compressed, max_constraints)?;
 
         let scalar_map = scalar_map(circuit.hades_optimization);
